@@ -9,3 +9,4 @@ import Generated.GoConfig
 import Generated.GoLink
 import Generated.GoCollection
 import Generated.GoSplicer
+import Generated.GoSelect
